@@ -74,7 +74,7 @@ PROPS = {
                U("c02_cum_regret", ["C02.V.cum_regret.nonneg (each per-infoset bound is a non-negative number)"]),
                U("c05_avg_strat", ["C05.V.avg_strat.sums_to_one", "C05.V.avg_strat.normalised", "C05.V.avg_strat.uniform_when_empty"]),
                U("c05_into_avg_strat", ["C05.V.into_avg_strat.normalised"]),
-               U("c08_regret_match", ["C08.V.regret_match.positive (current strategy: non-negative entries summing to one, any number of actions)", "C08.V.regret_match.fallback_argmax", "C08.V.regret_match.fallback_uniform", "C08.V.regret_match.fallback_argmin"]),
+               U("c08_regret_match", ["C08.V.regret_match.positive (current strategy: non-negative entries summing to one, any number of actions)", "C08.V.regret_match.fallback_argmax", "C08.V.regret_match.fallback_uniform", "C08.V.regret_match.fallback_argmin", "C08.V.regret_match.norm_over_positive"]),
                U("c08_discount", ["C08.V.gen_discount.value (the discount factor is t^a/(t^a+1): a number, never NaN)"]),
                U("c07_external_fresh", ["C07.V.single_player_iter.frontier_follows_sampled_player (an index panic otherwise)"]),
                U("c05_solve_dispatch", ["C05.V.solve.one_thread_never_errors", "C05.V.solve.thread_overflow", "C05.V.solve.multi_dispatch", "C05.V.solve.result_plumbing"]),
@@ -141,7 +141,7 @@ PROPS = {
         level_note="Equality of whole trajectories with a reference solver is NOT decided; recurse_player is proved at its &mut [f64] "
                    "instance (TYPE-SUBST) only; recurse_single/multi/regret (RefCell/Mutex-generic recursion) are read, not proved.",
         verus=[U("c06_threshold_player_step", ["C06.V.thread_threshold.frontier_reach", "C06.V.thread_threshold.frontier_reach_chance"]),
-               U("c08_regret_match", ["C08.V.regret_match.positive", "C08.V.regret_match.fallback_argmax", "C08.V.regret_match.fallback_uniform", "C08.V.regret_match.fallback_argmin"]),
+               U("c08_regret_match", ["C08.V.regret_match.positive", "C08.V.regret_match.fallback_argmax", "C08.V.regret_match.fallback_uniform", "C08.V.regret_match.fallback_argmin", "C08.V.regret_match.norm_over_positive"]),
                U("c08_discount", ["C08.V.gen_discount.value", "C08.V.discount_cum_regret", "C08.V.discount_average_strat.ratio"]),
                U("c08_advance_order", ["C08.V.advance.match_before_discount", "C08.V.advance.discount_regrets", "C08.V.advance.discount_average"]),
                U("c08_update_cum_strat", ["C08.V.update_cum_strat.vanilla", "C08.V.update_cum_strat.external", "C08.V.update_cum_strat.mutex"]),
